@@ -11,6 +11,8 @@ def main():
     from . import core, c01
     V = core.Verdicts("C06")
     extra = c01.relational_part(V, "C06", "iso", core.tier(), core.seed())
+    from . import gas
+    extra.update(gas.gas_part(V, "C06", core.tier(), core.seed(), [{"labels": [48, 3, 17, 51, 49, 50]}, {"labels": [100001, 99999, 100000, 7, 2000003, 5]}]))
     rc1 = V.finish()
     rc2 = ref.run_check("C06", RULE["C06"], extra_cov=extra, prior_violations=len(V.violations))
     return 1 if (rc1 or rc2) else 0
